@@ -798,6 +798,50 @@ class GenJumps(Gen):
                                                                   ([("val", ("lit", "%", 2))], body),
                                                                   ([("val", ("lit", "%", 3))], [self.trace("case 3 (must not run)")])], "else": [self.trace("case else (must not run)")]}, self.trace("after select")]
 
+    def header_fault(self):
+        """A clause in the header of a block fails (ELSEIF condition, CASE expression, NEXT increment); the handler repairs
+        the cause and RESUME must re-execute that clause."""
+        r = self.rng
+        k = r.choice(["elseif", "case", "next"])
+        reset = {"k": "assign", "lhs": ("var", "Z%"), "rhs": ("lit", "%", 0)}
+        quot = ("bin", "/", ("lit", "%", 10), ("var", "Z%"))
+        if k == "elseif":
+            return [reset, {"k": "if", "arms": [(("bin", "=", ("lit", "%", 1), ("lit", "%", 2)), [self.trace("then arm (must not run)")]),
+                                                 (("bin", "=", quot, ("lit", "%", 5)), [self.trace("elseif arm after RESUME")]),
+                                                 (("bin", "=", ("lit", "%", 3), ("lit", "%", 3)), [self.trace("second elseif arm (must not run)")])],
+                            "else": [self.trace("else arm (must not run)")]}, self.trace("after if")]
+        if k == "case":
+            return [reset, {"k": "select", "subj": ("lit", "%", 5), "cases": [([("val", ("lit", "%", 1))], [self.trace("case 1 (must not run)")]),
+                                                                             ([("val", quot)], [self.trace("case 10 / Z% after RESUME")]),
+                                                                             ([("val", ("lit", "%", 5))], [self.trace("case 5 (must not run)")])],
+                            "else": [self.trace("case else (must not run)")]}, self.trace("after select")]
+        # the increment of the inner loop overflows; the handler moves the counter back and RESUME repeats the increment
+        self.loop_id += 1
+        outer = "N%d%%" % self.loop_id
+        inner = {"k": "for", "var": "NX%", "lo": ("lit", "%", 1), "hi": ("lit", "%", 30000), "step": ("lit", "%", 20000),
+                 "body": [{"k": "print", "items": [("e", ("lit", "$", "in")), (";",), ("e", ("var", outer)), (";",), ("e", ("var", "NX%"))]}], "next_var": r.random() < 0.5}
+        return [{"k": "for", "var": outer, "lo": ("lit", "%", 1), "hi": ("lit", "%", 2), "step": None,
+                 "body": [inner, {"k": "print", "items": [("e", ("lit", "$", "inner done")), (";",), ("e", ("var", "NX%"))]}], "next_var": True},
+                self.trace("after loops")]
+
+    def sub_gosub(self):
+        """GOSUB / RETURN inside SUBs: they are local to the call."""
+        r = self.rng
+        k = r.choice(["legal", "return_in_sub", "exit_with_pending"])
+        if self.resume_mode == "retry" and self.handler_active:
+            k = "legal"        # an unrepairable fault under a plain RESUME would never end
+        lab = self.new_label("Mr")
+        self.uses_gs = True
+        if k == "legal":
+            return [self.trace("call GsLegal"), {"k": "callsub", "name": "GsLegal", "args": []}, self.trace("back from GsLegal")]
+        if k == "return_in_sub":
+            # the main module has a GOSUB pending while the SUB executes RETURN: error 3 inside the SUB
+            body = [self.trace("in " + lab), {"k": "callsub", "name": "GsReturn", "args": []}, self.trace("after GsReturn"), {"k": "return"}]
+            self.subs.append((lab, body))
+            return [self.trace("gosub " + lab), {"k": "gosub", "label": lab}, self.trace("back from " + lab)]
+        # the SUB leaves with its own GOSUB pending; a RETURN in the main module afterwards has nothing to return to
+        return [self.trace("call GsExit"), {"k": "callsub", "name": "GsExit", "args": []}, self.trace("back from GsExit"), {"k": "return"}, self.trace("after stray RETURN")]
+
     def handler_switch(self):
         r = self.rng
         x = r.random()
@@ -808,7 +852,9 @@ class GenJumps(Gen):
             # repair the causes (needed for plain RESUME, harmless otherwise)
             if mode == "retry" or r.random() < 0.4:
                 body += [{"k": "assign", "lhs": ("var", "Z%"), "rhs": ("lit", "%", 2)}, {"k": "assign", "lhs": ("var", "IX%"), "rhs": ("lit", "%", 1)},
-                         {"k": "assign", "lhs": ("var", "BIG&"), "rhs": ("lit", "%", 5)}, {"k": "assign", "lhs": ("var", "NEG%"), "rhs": ("lit", "%", 1)}]
+                         {"k": "assign", "lhs": ("var", "BIG&"), "rhs": ("lit", "%", 5)}, {"k": "assign", "lhs": ("var", "NEG%"), "rhs": ("lit", "%", 1)},
+                         {"k": "ifline", "cond": ("bin", ">", ("var", "NX%"), ("lit", "%", 20000)), "then": [{"k": "assign", "lhs": ("var", "NX%"), "rhs": ("lit", "%", 10001)}], "else": None}]
+                self.handler_repairs = True
             if r.random() < 0.4:
                 body.append({"k": "assign", "lhs": ("var", "C%"), "rhs": ("bin", "+", ("var", "C%"), ("lit", "%", 100))})
             if mode == "retry":
@@ -820,7 +866,7 @@ class GenJumps(Gen):
                 self.pending_main_labels.append(rl)
                 body.append({"k": "resume", "mode": "label", "label": rl})
             self.handlers.append((lab, body))
-            self.handler_active = True
+            self.handler_active = "goto_repair" if mode == "retry" else True
             return [{"k": "onerror", "mode": "goto", "label": lab}]
         if x < 0.8:
             self.handler_active = False
@@ -846,6 +892,11 @@ class GenJumps(Gen):
                 main += self.handler_switch()
             elif x < 0.4:
                 main += self.fault_block() if (self.handler_active or r.random() < 0.08) else [self.trace("idle")]
+            elif x < 0.47:
+                if self.handler_active == "goto_repair" and self.resume_mode == "retry":
+                    main += self.header_fault()
+                else:
+                    main += self.sub_gosub()
             elif x < 0.55:
                 main += self.nested_fault() if self.handler_active else self.counted_goto()
             elif x < 0.7:
@@ -884,6 +935,19 @@ class GenJumps(Gen):
              "body": [{"k": "print", "items": [("e", ("lit", "$", "FaultFn in"))]},
                       {"k": "assign", "lhs": ("var", "FaultFn%"), "rhs": ("bin", "/", ("lit", "%", 20), ("var", "X%"))}]},
         ]
+        if getattr(self, "uses_gs", False):
+            def pr(t):
+                return {"k": "print", "items": [("e", ("lit", "$", t))]}
+            procs += [
+                {"k": "sub", "name": "GsLegal", "params": [], "static": r.random() < 0.3, "rtype": None,
+                 "body": [pr("GsLegal in"), {"k": "gosub", "label": "GsL1"}, pr("GsLegal after gosub"), {"k": "exit", "what": "SUB"},
+                          {"k": "label", "name": "GsL1"}, pr("GsLegal routine"), {"k": "return"}]},
+                {"k": "sub", "name": "GsReturn", "params": [], "static": r.random() < 0.3, "rtype": None,
+                 "body": [pr("GsReturn in"), {"k": "return"}, pr("GsReturn after RETURN (only after RESUME NEXT)")]},
+                {"k": "sub", "name": "GsExit", "params": [], "static": r.random() < 0.3, "rtype": None,
+                 "body": [pr("GsExit in"), {"k": "gosub", "label": "GsE1"}, pr("GsExit after gosub (must not run)"), {"k": "exit", "what": "SUB"},
+                          {"k": "label", "name": "GsE1"}, pr("GsExit routine"), {"k": "exit", "what": "SUB"}]},
+            ]
         main = flatten_multi(main)
         counter = [0]
         number_statements(main, counter)
